@@ -24,7 +24,7 @@ func init() {
 		{"C03", "unstable-sort", "C03.a", ix, "sort.SliceStable(unreadMessageIndexes, func(i, j int) bool {\n\t\t\t\treturn unreadMessageIndexes[i].timestamp < unreadMessageIndexes[j].timestamp", "sort.Slice(unreadMessageIndexes, func(i, j int) bool {\n\t\t\t\treturn unreadMessageIndexes[i].timestamp < unreadMessageIndexes[j].timestamp", "sort of the message queue"}, // (S)
 		{"C03", "non-strict-comparator", "C03.b", ix, "return unreadMessageIndexes[i].timestamp > unreadMessageIndexes[j].timestamp", "return unreadMessageIndexes[i].timestamp >= unreadMessageIndexes[j].timestamp", "comparator"},
 		{"C03", "reverse-trigger-wrong-key", "C03.c", ix, "it.order == ReverseLogTimeOrder && chunkIndex.MessageEndTime > messageIndex.timestamp", "it.order == ReverseLogTimeOrder && chunkIndex.MessageStartTime > messageIndex.timestamp", "chunk order key vs load trigger (order 2)"},
-		{"C03", "no-reverse-before-sort", "C03.d", ix, "slices.Reverse(it.messageIndexes[startIdx:])", "_ = startIdx", "reverse of the new segment"},
+		{"C03", "reverse-after-sort", "C03.d", ix, "\t\tslices.Reverse(it.messageIndexes[startIdx:])\n\t\tif sortingRequired {\n\t\t\tsort.SliceStable(unreadMessageIndexes, func(i, j int) bool {\n\t\t\t\treturn unreadMessageIndexes[i].timestamp > unreadMessageIndexes[j].timestamp\n\t\t\t})\n\t\t}", "\t\tif sortingRequired {\n\t\t\tsort.SliceStable(unreadMessageIndexes, func(i, j int) bool {\n\t\t\t\treturn unreadMessageIndexes[i].timestamp > unreadMessageIndexes[j].timestamp\n\t\t\t})\n\t\t}\n\t\tslices.Reverse(it.messageIndexes[startIdx:])", "reverse of the new segment"},
 		// C04
 		{"C04", "inclusive-end", "C04.a", ux, "beforeEnd(msg.LogTime, it.end)", "msg.LogTime <= it.end", "window predicate"},
 		{"C04", "pruning-too-strong", "C04.b", ix, "idx.MessageEndTime >= it.start", "idx.MessageEndTime > it.start", "chunk pruning condition"}, // (S)
@@ -66,7 +66,7 @@ func init() {
 		{"C15", "readuint64-raw-read", "C15.a", "go/mcap/utils.go", "if _, err := io.ReadFull(r, buf[:8]); err != nil {", "if _, err := r.Read(buf[:8]); err != nil {", "raw invoke"}, // (S)
 		{"C15", "error-to-eof", "C15.b", lx, "\t\tif err != nil {\n\t\t\treturn TokenError, nil, err\n\t\t}\n\n\t\tswitch opcode {", "\t\tif err != nil {\n\t\t\treturn TokenError, nil, io.EOF\n\t\t}\n\n\t\tswitch opcode {", "io.ReadFull"},
 		// C16
-		{"C16", "go-decoder-width", "C16.a", pr, "uncompressedCRC, offset, err := getUint32(buf, offset)\n\tif err != nil {\n\t\treturn nil, fmt.Errorf(\"failed to read uncompressed CRC: %w\", err)\n\t}\n\tcompression, offset, err := getPrefixedString(buf, offset)", "uncompressedCRC, offset, err := getUint16(buf, offset)\n\tif err != nil {\n\t\treturn nil, fmt.Errorf(\"failed to read uncompressed CRC: %w\", err)\n\t}\n\tcompression, offset, err := getPrefixedString(buf, offset)", "layout of Chunk"},
+		{"C16", "go-encoder-width", "C16.a", w, "offset += putUint32(w.msg[offset:], c.UncompressedCRC)", "offset += putUint64(w.msg[offset:], uint64(c.UncompressedCRC))", "layout of Chunk"},
 		// C17
 		{"C17", "feature-arm-wrong-option", "C17.a", "go/conformance/test-write-conformance/main.go", "\t\tcase UseChunkIndex:\n\t\t\toptions.SkipChunkIndex = false", "\t\tcase UseChunkIndex:\n\t\t\toptions.SkipMetadataIndex = false", "feature chx"},
 		{"C17", "input-field-misrouted", "C17.b", "go/conformance/test-write-conformance/main.go", "\t\t\tmessage.PublishTime = publishTime", "\t\t\tmessage.LogTime = publishTime", "Message field publish_time"},
